@@ -29,13 +29,14 @@ type toolTree struct {
 }
 
 type toolCase struct {
-	Pre     toolTree   `json:"pre"`
-	Cmd     []any      `json:"cmd"`
-	Post    toolTree   `json:"post"`
-	Exit    int        `json:"exit"`
-	Wrote   [][]string `json:"wrote"`
-	Reports [][]any    `json:"reports"` // compare in text mode: (rule id, unchanged) per rule file in walk order
-	GhError bool       `json:"gherror"` // compare --all -o github closes with the ::error:: line
+	Pre        toolTree   `json:"pre"`
+	Cmd        []any      `json:"cmd"`
+	Post       toolTree   `json:"post"`
+	Exit       int        `json:"exit"`
+	Wrote      [][]string `json:"wrote"`
+	Reports    [][]any    `json:"reports"`    // compare in text mode: (rule id, unchanged) per rule file in walk order
+	GhError    bool       `json:"gherror"`    // compare --all -o github closes with the ::error:: line
+	FmtReports []string   `json:"fmtreports"` // format --check: the files reported as not properly formatted, in walk order
 }
 
 var toolFiles = []string{"932100-chain1", "932100", "932110"}
@@ -441,6 +442,19 @@ func toolReplay(c *Ctx, env *toolEnv, name string, tc *toolCase, cli *int64) {
 		}
 		if strings.Contains(r.Stdout, "::error::All rules need to be up to date") != tc.GhError {
 			bad(fmt.Sprintf("the closing ::error:: line of compare --all -o github: printed=%v, the model says %v", !tc.GhError, tc.GhError), nil)
+		}
+	}
+	// format --check: the files reported, in walk order (Toolchain!FmtReports)
+	if name, _ := tc.Cmd[0].(string); name == "format-check-all" || name == "format-check" {
+		var got, want []string
+		for _, m := range reNotFormattedAny.FindAllStringSubmatch(r.Stdout, -1) {
+			got = append(got, m[1])
+		}
+		for _, f := range tc.FmtReports {
+			want = append(want, f+".ra")
+		}
+		if strings.Join(got, ",") != strings.Join(want, ",") {
+			bad(fmt.Sprintf("format --check reports [%s] as not properly formatted, the model says [%s]", strings.Join(got, ","), strings.Join(want, ",")), nil)
 		}
 	}
 	// the changed paths must be exactly the components the model says were written
